@@ -14,7 +14,7 @@ func choose[T any](xs []T) T { return xs[rng.Intn(len(xs))] }
 
 func chance(num, den int) bool { return rng.Intn(den) < num }
 
-var rdnKeys = []string{"C", "O", "OU", "CN", "SERIALNUMBER", "L", "ST", "STREET", "POSTALCODE", "1.2.3.4", "2.5.4.42", "1.2.840.113549.1.9.1", "0.9.2342.19200300.100.1.25"}
+var rdnKeys = []string{"C", "O", "OU", "CN", "SERIALNUMBER", "L", "ST", "STREET", "POSTALCODE", "1.2.3.4", "2.5.4.42", "1.2.840.113549.1.9.1", "0.9.2342.19200300.100.1.25", "2.5.4.010", "1.2.3.0100", "02.05.04.0011"}
 
 var valueShapes = []string{"DE", "Acme", "Test CA 1", "a-b.c", "O'Neil (x)", "x+y/z:w?", "ümlaut", "naïve café", "日本", "a*b", "a&b", "x  y", "#notbinary", "1", "A", "snowman ☃", "𝔘"}
 
@@ -80,6 +80,10 @@ func genOid() string {
 			parts = append(parts, fmt.Sprint(choose([]int{1 << 31, 1 << 40}))) // not readable by encoding/asn1: must be a configuration error
 		default:
 			parts = append(parts, fmt.Sprint(rng.Intn(300)))
+		}
+		// arcs are decimal whatever they look like: leading zeros are legal in the schema and must not change the value
+		if chance(1, 10) {
+			parts[len(parts)-1] = choose([]string{"0", "00"}) + parts[len(parts)-1]
 		}
 	}
 	return strings.Join(parts, ".")
